@@ -70,12 +70,37 @@ def post(V):
                          'source': src, 'value': 'a<Q%3Cq (tainted)', 'got': got})
 
 
+def post_markup(V):
+    """the markup formats (structured / restructured text) are not modelled: whatever they do with an untrusted value -- render
+    it or refuse it -- its '<' must not come out raw (the marker <Q never occurs in the templates)"""
+    from AccessControl.tainted import TaintedString
+    from DocumentTemplate.DT_HTML import HTML
+    from DocumentTemplate.DT_String import String
+    vals = ['<Q>alert(1)</Q> hi', 'para one\n\n<Qb>bold</Qb> *x*', 'a <Q b', '- item <Q\n- two']
+    for fmt in ('structured-text', 'restructured-text'):
+        for tail in ('', ' html_quote', ' upper', ' size=200', ' null=n', ' newline_to_br'):
+            for cls, src in ((HTML, '<dtml-var x fmt=%s%s>' % (fmt, tail)), (HTML, '<dtml-var expr="x" fmt=%s%s>' % (fmt, tail)),
+                             (String, '%%(x fmt=%s%s)s' % (fmt, tail))):
+                for v in vals:
+                    V.count('renderings')
+                    try:
+                        got = cls(src)(x=TaintedString(v))
+                    except Exception:  # noqa  refusing the value emits nothing
+                        continue
+                    if '<Q' in str(got) or '<q' in str(got):
+                        V.violation({'kind': 'departure', 'clause': 'raw-lt', 'cls': 'markup-format', 'source': src,
+                                     'value': v + ' (tainted)', 'got': str(got)[:200]})
+
+
 def main(tier):
-    return vc.run(PID, tier, sweeps(tier), classify, post=post,
+    def both(V):
+        post(V)
+        post_markup(V)
+    return vc.run(PID, tier, sweeps(tier), classify, post=both,
                   invs=['NoRawLT', 'OnceNotTwice', 'NoRawSpecial', 'TruncBound'],
                   assumptions=['a tainted value is a TaintedString containing "<" (the property\'s definition)',
                                'fmt= covers the special formats, the method formats upper/lower/capitalize/strip and '
-                               'a %-format; restructured/structured text formats are not modelled'],
+                               'a %-format; restructured/structured text formats are not modelled: their output is only searched for the raw marker'],
                   rule='tainted texts with "<" first/middle/last x all 4096 modifier subsets; formats x C-format x '
                        'single modifiers x sizes x etc x null; name / expression / entity; HTML, SSI and EPFS spellings, '
                        'several written orders')
